@@ -101,6 +101,31 @@ class MixedR(Expr):
 
 
 @dataclass(frozen=True)
+class MLeft(Expr):
+    lv: int = 0
+    lk: Expr | None = None
+
+
+@dataclass(frozen=True)
+class MRight(Expr):
+    rv: int = 0
+    rk: Expr | None = None
+
+
+@dataclass(frozen=True)
+class MBoth(MLeft, MRight):
+    """multiple inheritance, no fields of its own (dataclass field order: the reversed MRO: rv, rk, lv, lk)"""
+
+
+@dataclass(frozen=True)
+class Glue(Expr):
+    """field `argExpr` = field `arg` + class name `Expr` (texts that differ only by whitespace mean different things)"""
+
+    arg: Expr | None = None
+    argExpr: Expr | None = None
+
+
+@dataclass(frozen=True)
 class Falsy(Expr):
     """A node that is False in a boolean context."""
 
@@ -142,6 +167,8 @@ class PropZoo(Expr):
     fss: frozenset[str] = frozenset()
     tf: tuple[frozenset[str], ...] = ()
     anyt: tuple[Any, ...] = ()     # items that may be == but of different types (1 / True / 1.0)
+    nfs: frozenset[frozenset[int]] = frozenset()
+    num: int | float = 1
     hidden: int = field(default=0, compare=False)
 
 
@@ -214,6 +241,10 @@ CHILD_FIELDS: dict[type, list[tuple[str, bool]]] = {
     Tup: [("items", True)],
     Fix2: [("pair", True)],
     Mixed: [("z", False), ("items", True), ("a", False)],
+    MLeft: [("lk", False)],
+    MRight: [("rk", False)],
+    MBoth: [(f.name, False) for f in dataclasses.fields(MBoth) if f.name in ("lk", "rk")],
+    Glue: [("arg", False), ("argExpr", False)],
     MixedR: [("items", True), ("z", False), ("a", False)],
     Falsy: [],
     FalsyKid: [("c", False), ("items", True)],
@@ -322,6 +353,9 @@ class Gen:
             n = PropZoo(e=r.choice(list(Color)), t=tuple(r.randint(0, 3) for _ in range(r.randint(0, 3))),
                         anyt=tuple(r.choice([r.randint(0, 3), True, False, 1.0, 0.0, "1", None])
                                    for _ in range(r.randint(0, 3))),
+                        nfs=frozenset(frozenset(r.sample([0, 8, 16, 24, 32, 1], r.randint(1, 4)))
+                                      for _ in range(r.choice([0, 1, 1, 2]))),
+                        num=r.choice([1, 1.0, 2, 2.5, 0]),
                         fs=frozenset(elems), o=r.choice([None, 0, 1]), lit=r.choice(["a", "b"]),
                         p=Path(r.choice([".", "a/b", "/x"])), fl=r.choice([0.0, 1.5, -2.25, 1e10]),
                         fss=frozenset(gen_str(r) for _ in range(r.randint(0, 4))),
@@ -391,9 +425,20 @@ class Gen:
                        name=gen_str(r), origin=o)
         elif k < 0.9 and self.falsy:
             n = FalsyKid(sub(b // 2) if r.random() < 0.7 else None, subs(b // 2), origin=o)
-        else:
+        elif k < 0.93:
             n = Names(sub(b // 3) if r.random() < 0.6 else None, sub(b // 3) if r.random() < 0.6 else None,
                       subs(b // 3), origin=o)
+        elif k < 0.965:
+            # a class of the multiple-inheritance family: a base first, the combined class later in the process
+            cls = r.choice([MLeft, MRight, MBoth, MBoth])
+            kw = {}
+            if cls in (MLeft, MBoth):
+                kw.update(lv=r.randint(0, 2), lk=sub(b // 2) if r.random() < 0.7 else None)
+            if cls in (MRight, MBoth):
+                kw.update(rv=r.randint(0, 2), rk=sub(b // 2) if r.random() < 0.7 else None)
+            n = cls(origin=o, **kw)
+        else:
+            n = Glue(sub(b // 2) if r.random() < 0.6 else None, sub(b // 2) if r.random() < 0.6 else None, origin=o)
         self.pool.append(n)
         return n
 
@@ -640,3 +685,43 @@ def stable_text(v, top=True) -> str:
         items = [stable_text(x, False) for x in v]
         return "(" + ", ".join(items) + ("," if len(items) == 1 else "") + ")"
     return str(v) if top else repr(v)
+
+
+# ---------------------------------------------------------------- special node models
+
+# the combined class must meet its first base already specialised: instantiate the bases at import
+MLeft(); MRight()
+
+
+def same_name_classes():
+    """two DIFFERENT node classes with the same module and qualified name (a class factory called twice; pyoak allows
+    re-definition inside one module); the second has an extra comparable property and an extra child field"""
+    def make(extra: bool):
+        if extra:
+            @dataclass(frozen=True)
+            class Ident(Expr):
+                v: int = 0
+                w: int = 0
+                k: Expr | None = None
+        else:
+            @dataclass(frozen=True)
+            class Ident(Expr):
+                v: int = 0
+        return Ident
+    return make(False), make(True)
+
+
+class config_variation:
+    """runs a block under a random setting of the library's behaviour-neutral configuration flags"""
+
+    def __init__(self, rng: random.Random, p: float = 0.25):
+        self.on = rng.random() < p
+
+    def __enter__(self):
+        import pyoak.config as c
+        self.c, self.old = c, c.TRACE_LOGGING
+        c.TRACE_LOGGING = self.on
+        return self
+
+    def __exit__(self, *a):
+        self.c.TRACE_LOGGING = self.old
